@@ -37,6 +37,30 @@ type PCase struct {
 	Ops     string `json:"ops,omitempty"`
 }
 
+// RecEv is one recorded observable result.
+type RecEv struct {
+	Op   uint8
+	N    int
+	Err  string
+	Seqs []lz.Seq
+	Lits []byte
+}
+
+func (h *Hist) record(op int, n int, err error, blk *lz.Block) {
+	if !h.Record {
+		return
+	}
+	e := RecEv{Op: uint8(op), N: n}
+	if err != nil {
+		e.Err = err.Error()
+	}
+	if blk != nil {
+		e.Seqs = append([]lz.Seq(nil), blk.Sequences...)
+		e.Lits = append([]byte(nil), blk.Literals...)
+	}
+	h.Rec = append(h.Rec, e)
+}
+
 // ParseEv describes one Parse call.
 type ParseEv struct {
 	Flags     int
@@ -80,12 +104,21 @@ type Hist struct {
 	// since the last Reset (C12 excludes such histories).
 	NilUsed bool
 
+	// NewParserFn, if set, supplies the parser instance (C13 hands in a
+	// parser that has a history and was Reset).
+	NewParserFn func(cfg lz.ParserConfig) lz.Parser
+	// Preload is the prefix of Input the supplied parser already buffers.
+	Preload []byte
+	// Record switches on the recording of every observable result in Rec.
+	Record bool
+	Rec    []RecEv
+
 	// Last describes the most recent Write/ReadFrom/Shrink for the Op oracle.
 	Last struct {
-		Arg    int   // bytes offered (Write: len(p); ReadFrom: bytes the reader had)
-		N      int   // result
-		Given  int   // ReadFrom: bytes the reader handed out
-		BufLen int   // bytes buffered before the call (Shrink: parsed bytes W before the call)
+		Arg    int // bytes offered (Write: len(p); ReadFrom: bytes the reader had)
+		N      int // result
+		Given  int // ReadFrom: bytes the reader handed out
+		BufLen int // bytes buffered before the call (Shrink: parsed bytes W before the call)
 		Err    error
 	}
 
@@ -247,16 +280,20 @@ func RunParserHist(h *Hist, orc *Oracle) {
 		h.cfgFor = h.PC.JSON
 	}
 	cfg := h.cfgVal
-	p, err := cfg.NewParser()
-	if err != nil {
+	var p lz.Parser
+	var err error
+	if h.NewParserFn != nil {
+		p = h.NewParserFn(cfg)
+	} else if p, err = cfg.NewParser(); err != nil {
 		panic(fmt.Errorf("harness: NewParser(%s): %v", h.PC.JSON, err))
 	}
 	h.P = p
 	h.Cfg = p.ParserConfig()
 	h.BC = p.BufferConfig()
 	h.MinMatch, h.MaxMatch = MinMatch(h.PC.Kind, h.Cfg)
-	h.Stream = h.Stream[:0]
+	h.Stream = append(h.Stream[:0], h.Preload...)
 	h.Off, h.Pos, h.Resets, h.Fills = 0, 0, 0, 0
+	h.Rec = h.Rec[:0]
 	h.NilUsed = false
 	h.oplog = h.oplog[:0]
 	h.outcome = 14695981039346656037
@@ -268,7 +305,7 @@ func RunParserHist(h *Hist, orc *Oracle) {
 	h.St.Execs++
 
 	in := h.Input
-	fed := 0
+	fed := len(h.Preload) // Preload is a prefix of Input that the parser already holds
 	B := h.BC.BufferSize
 	blk := &h.Blk
 	depth := int64(0)
@@ -294,6 +331,7 @@ func RunParserHist(h *Hist, orc *Oracle) {
 		err := p.Reset(arg)
 		track()
 		h.logOp(opReset, len(data), extraCap)
+		h.record(opReset, len(data), err, nil)
 		if err != nil {
 			h.Fail("reset-error", "Reset(len %d) with BufferSize %d failed: %v", len(data), B, err)
 			return false
@@ -336,6 +374,11 @@ func RunParserHist(h *Hist, orc *Oracle) {
 			h.mix(uint64(len(blk.Literals)))
 		}
 		if nilBlk {
+			h.record(opParseNil, n, err, nil)
+		} else {
+			h.record(opParse+flags, n, err, blk)
+		}
+		if nilBlk {
 			h.logOp(opParseNil, 0, n)
 		} else if flags != 0 {
 			h.logOp(opParseNTL, 0, n)
@@ -354,6 +397,7 @@ func RunParserHist(h *Hist, orc *Oracle) {
 		h.Last.N, h.Last.Err = delta, nil
 		track()
 		h.logOp(opShrink, 0, delta)
+		h.record(opShrink, delta, nil, nil)
 		if delta < 0 || delta > h.W() {
 			h.Fail("shrink-range", "Shrink returned %d with %d parsed bytes buffered", delta, h.W())
 			delta = 0
@@ -368,6 +412,7 @@ func RunParserHist(h *Hist, orc *Oracle) {
 outer:
 	for round := 0; ; round++ {
 		progress := false
+		fed0, pos0, off0, resets0 := fed, h.Pos, h.Off, h.Resets
 		// ---- feed ----
 		if fed < len(in) {
 			rem := in[fed:]
@@ -404,6 +449,7 @@ outer:
 				h.Last.Arg, h.Last.N, h.Last.Err = len(q), n, err
 				track()
 				h.logOp(opWrite, len(q), n)
+				h.record(opWrite, n, err, nil)
 				if n < 0 || n > len(q) {
 					h.Fail("write-range", "Write(%d bytes) returned n=%d", len(q), n)
 					h.St.Pruned++
@@ -434,6 +480,7 @@ outer:
 				h.Last.Arg, h.Last.N, h.Last.Given, h.Last.Err = len(rem), int(n64), r.given, err
 				track()
 				h.logOp(opReadPlain+op-4, 0, int(n64))
+				h.record(opReadPlain+op-4, int(n64), err, nil)
 				if n64 < 0 || int(n64) > r.given {
 					h.Fail("readfrom-range", "ReadFrom returned n=%d, reader handed out %d", n64, r.given)
 					h.St.Pruned++
@@ -580,6 +627,9 @@ outer:
 				}
 				progress = true
 			}
+		}
+		if fed != fed0 || h.Pos != pos0 || h.Off != off0 || h.Resets != resets0 {
+			progress = true
 		}
 		if !progress {
 			room := B - (len(h.Stream) - h.Off)
